@@ -812,3 +812,16 @@ package iscp
 //@ func (*Conn).subscribeDownstreamMetadata$1$1
 //@   props C03
 //@   forbid call Done
+
+// ---------------------------------------------------------------- C01: every ack result reaches the ack hook
+// Each result of each acknowledgement is handed to the ack hook (when one is installed) before it is
+// routed to the chunk's waiter, and whatever that routing says: a result nobody waits for any more
+// (a duplicated or late ack) is still reported.
+//@ func (*Upstream).readResultLoop
+//@   props C01
+//@   ghostvar hooked bool = false
+//@   after call addHandler: hooked = true
+//@   assert call Upstream).processResult: imp(u.afterHooker != nil, hooked)
+//@   after call Upstream).processResult: hooked = false
+//@   loop 1 invariant !hooked
+//@   loop 2 invariant !hooked
